@@ -1065,6 +1065,30 @@ func resultOf(ret *ssa.Return, i int) ssa.Value {
 	return v
 }
 
+// retCase is one way of reaching an exit with a distinct result value: results merged by a phi (single-exit style
+// `err = X ... return err`) are judged per incoming edge, at the end of the predecessor block of that edge.
+type retCase struct {
+	V  ssa.Value
+	At *ssa.BasicBlock
+}
+
+func returnCases(ret *ssa.Return, i int) []retCase {
+	v := resultOf(ret, i)
+	var out []retCase
+	var expand func(v ssa.Value, at *ssa.BasicBlock, depth int)
+	expand = func(v ssa.Value, at *ssa.BasicBlock, depth int) {
+		if ph, ok := v.(*ssa.Phi); ok && depth > 0 {
+			for k, e := range ph.Edges {
+				expand(e, ph.Block().Preds[k], depth-1)
+			}
+			return
+		}
+		out = append(out, retCase{v, at})
+	}
+	expand(v, ret.Block(), 3)
+	return out
+}
+
 func lastResult(ret *ssa.Return) ssa.Value {
 	if len(ret.Results) == 0 {
 		return nil
@@ -1380,4 +1404,63 @@ func (p *P) wakesAfterEnqueue(g *ssa.Function, calls []ssa.Instruction) bool {
 		}
 	}
 	return true
+}
+
+// elementFieldStores: the struct passed by value as argument argIdx of a call (`put(queueElement{...})` or `put(elem)`)
+// is a load of a local; returns the stores to its field named `field` (by fieldKey) that reach the call, i.e. dominate it.
+func elementFieldStores(call ssa.Instruction, argIdx int, key string) []*ssa.Store {
+	cc := callCommon(call)
+	if cc == nil || argIdx >= len(cc.Args) {
+		return nil
+	}
+	ld, ok := cc.Args[argIdx].(*ssa.UnOp)
+	if !ok || ld.Op != token.MUL {
+		return nil
+	}
+	al, ok := ld.X.(*ssa.Alloc)
+	if !ok {
+		return nil
+	}
+	var out []*ssa.Store
+	for _, ref := range *al.Referrers() {
+		fa, ok := ref.(*ssa.FieldAddr)
+		if !ok || fieldKey(fa) != key {
+			continue
+		}
+		for _, r2 := range *fa.Referrers() {
+			if st, ok := r2.(*ssa.Store); ok && st.Addr == ssa.Value(fa) && instrDominates(st, call) {
+				out = append(out, st)
+			}
+		}
+	}
+	return out
+}
+
+// wireFamily: the wire handlers plus local helpers that are called from nowhere else (per-element / per-event helpers
+// split off a handler), two levels deep.
+func (p *P) wireFamily() []*ssa.Function {
+	out := append([]*ssa.Function{}, p.wireHandlers()...)
+	for depth := 0; depth < 2; depth++ {
+		for _, f := range append([]*ssa.Function{}, out...) {
+			allInstrs(f, func(in ssa.Instruction) {
+				g := p.localCallee(in)
+				if g == nil || inFns(g, out) || g.Parent() != nil {
+					return
+				}
+				only := true
+				for _, h := range p.fnList {
+					if inFns(h, out) || h == g {
+						continue
+					}
+					if len(findInstrs(h, p.mCallD(p.fname(g)))) > 0 {
+						only = false
+					}
+				}
+				if only {
+					out = append(out, g)
+				}
+			})
+		}
+	}
+	return out
 }
